@@ -109,8 +109,8 @@ def hasParam (given : List (Str × V)) (d : Decl V) : Prop := (paramValue given 
 def hasInput (names : List Str) (d : Decl V) : Prop := (inputBind names d).isSome = true
 
 theorem hasParam_iff (given : List (Str × V)) (d : Decl V) :
-    hasParam given d ↔ (lookupS d.name given).isSome = true ∨ d.default.isSome = true := by
-  unfold hasParam paramValue; cases lookupS d.name given <;> simp
+    hasParam given d ↔ (lookupS d.key given).isSome = true ∨ d.default.isSome = true := by
+  unfold hasParam paramValue; cases lookupS d.key given <;> simp
 
 theorem hasInput_iff (names : List Str) (d : Decl V) :
     hasInput names d ↔ d.name ∈ names ∨ d.default.isSome = true := by
